@@ -16,8 +16,8 @@ func init() {
 		Rule: "one case = one sequence of SetExtension/DelExtension calls from one starting state; the full oracle (ordered-map model, error-leaves-unchanged, Marshal does not panic, wire survival) runs after every step; non-trivial = at least one call returned nil",
 		Assumptions: []string{
 			"operation alphabet: Set(id,len) with id in {0,1,2,14,15,16,255} x len in {0,1,4,16,17,255,256,300} (value bytes keyed by the operation index) and Del(id) with id in {0,1,2,14,15,255}: 62 operations; all sequences up to depth 3 (quick) / 4 (thorough)",
-			"starting states: fresh header; preset one-byte; preset two-byte; preset legacy 0x1234 (no element yet); decoded from wire: one-byte with 2 elements, two-byte with 2 elements, legacy with one word; reused receivers: decoded a block with extensions then a packet without / a two-byte block then a one-byte block",
-			"long sequences: all sequences of 6 (quick) / 7 (thorough) calls over the 10-call alphabet {Set(1,1B), Set(2,16B), Set(3,4B), Set(14,2B), Del(1), Del(2), Del(3), Del(14), Set(2, the same slice as the previous Set), Set(1, other content of the previous length)} from the 9 starting states, and one fill-up run that sets all 14 one-byte ids / 40 two-byte ids and deletes every second one",
+			"starting states: fresh header; preset one-byte; preset two-byte; preset legacy (no element yet) and decoded legacy with one word, each for the profiles {0x1234, 0x1001, 0x100F, 0xBEDF, 0x0000}; decoded from wire: one-byte with 2 elements, two-byte with 2 elements; reused receivers: decoded a block with extensions then a packet without / a two-byte block then a one-byte block",
+			"long sequences: all sequences of 6 (quick) / 7 (thorough) calls over the 10-call alphabet {Set(1,1B), Set(2,16B), Set(3,4B), Set(14,2B), Del(1), Del(2), Del(3), Del(14), Set(2, the same slice as the previous Set), Set(1, other content of the previous length)} from the starting states (legacy profiles 0x1234 and 0x1001 only), and one fill-up run that sets all 14 one-byte ids / 40 two-byte ids and deletes every second one",
 			"the model follows the library's return values (it does not decide which Set calls must be accepted); wrongly accepted values are caught by the wire-survival clause",
 		},
 		Scenarios: []mc.Scenario{
@@ -33,6 +33,10 @@ var (
 	c05DelIDs  = []uint8{0, 1, 2, 14, 15, 255}
 	c05AllIDs  = []uint8{0, 1, 2, 3, 8, 14, 15, 16, 255}
 )
+
+// legacy profiles: an arbitrary one, the neighbours of the two RFC 8285 profiles (0x1001-0x100F
+// are the two-byte profile with application bits, which this library treats as legacy), extremes
+var c05LegacyProfiles = []uint16{0x1234, 0x1001, 0x100F, 0xBEDF, 0x0000}
 
 type c05Model struct {
 	ids  []uint8
@@ -75,7 +79,7 @@ func (a c05Snap) equal(b c05Snap) bool {
 	return a.ext == b.ext && a.profile == b.profile && bytes.Equal(a.ids, b.ids) && equalAll(a.vals, b.vals)
 }
 
-func c05Start(c *mc.Ctx, h *rtp.Header, m *c05Model) string {
+func c05Start(c *mc.Ctx, h *rtp.Header, m *c05Model, profiles []uint16) string {
 	st := c.Pick(9)
 	dec := func(img []byte) {
 		if _, err := h.Unmarshal(img); err != nil {
@@ -92,8 +96,9 @@ func c05Start(c *mc.Ctx, h *rtp.Header, m *c05Model) string {
 		h.Extension, h.ExtensionProfile = true, 0x1000
 		return "preset-two-byte"
 	case 3:
-		h.Extension, h.ExtensionProfile = true, 0x1234
-		return "preset-legacy"
+		prof := mc.From(c, profiles)
+		h.Extension, h.ExtensionProfile = true, prof
+		return fmt.Sprintf("preset-legacy-%#04x", prof)
 	case 4:
 		dec([]byte{0x90, 0x60, 0, 1, 0, 0, 0, 2, 0, 0, 0, 3, 0xBE, 0xDE, 0, 2, 0x11, 0xA1, 0xA2, 0x20, 0xB1, 0, 0, 0})
 		m.set(1, []byte{0xA1, 0xA2})
@@ -105,9 +110,10 @@ func c05Start(c *mc.Ctx, h *rtp.Header, m *c05Model) string {
 		m.set(255, []byte{0xB1})
 		return "decoded-two-byte[1:a1a2 255:b1]"
 	case 6:
-		dec([]byte{0x90, 0x60, 0, 1, 0, 0, 0, 2, 0, 0, 0, 3, 0x12, 0x34, 0, 1, 0xC1, 0xC2, 0xC3, 0xC4})
+		prof := mc.From(c, profiles)
+		dec([]byte{0x90, 0x60, 0, 1, 0, 0, 0, 2, 0, 0, 0, 3, byte(prof >> 8), byte(prof), 0, 1, 0xC1, 0xC2, 0xC3, 0xC4})
 		m.set(0, []byte{0xC1, 0xC2, 0xC3, 0xC4})
-		return "decoded-legacy[0:c1c2c3c4]"
+		return fmt.Sprintf("decoded-legacy-%#04x[0:c1c2c3c4]", prof)
 	case 7:
 		// a receiver that decoded a packet with extensions before one without
 		dec([]byte{0x90, 0x60, 0, 1, 0, 0, 0, 2, 0, 0, 0, 3, 0xBE, 0xDE, 0, 2, 0x11, 0xA1, 0xA2, 0x20, 0xB1, 0, 0, 0})
@@ -130,7 +136,7 @@ func c05Run(c *mc.Ctx) {
 	h := &rtp.Header{Version: 2, PayloadType: 96, SequenceNumber: 1, Timestamp: 2, SSRC: 3}
 	m := &c05Model{vals: map[uint8][]byte{}}
 	var trace []string
-	trace = append(trace, c05Start(c, h, m))
+	trace = append(trace, c05Start(c, h, m, c05LegacyProfiles))
 	hist := func() string { return strings.Join(trace, "; ") }
 	accepted := 0
 	c05Oracle(c, h, m, hist)
@@ -248,7 +254,7 @@ func c05Long(c *mc.Ctx) {
 	h := &rtp.Header{Version: 2, PayloadType: 96, SequenceNumber: 1, Timestamp: 2, SSRC: 3}
 	m := &c05Model{vals: map[uint8][]byte{}}
 	var trace []string
-	trace = append(trace, c05Start(c, h, m))
+	trace = append(trace, c05Start(c, h, m, c05LegacyProfiles[:2]))
 	hist := func() string { return strings.Join(trace, "; ") }
 	if c.Pick(2) == 0 {
 		// fill-up run: many elements, then delete every second one
